@@ -595,7 +595,7 @@ type planned struct {
 }
 
 func drive(d *mon.Driver, replay string) int {
-	d.Rule = "(senders, receivers, buffer, mode, send styles, receive styles, spawn forms/bindings, GOMAXPROCS, scope) of one channel group is new AND at least two script goroutines provably overlapped in that run (stamped runs: stamps of ≥2 goroutines alternate; unstamped: more messages than buffer slots, or a receiver's list alternates between senders, or two receivers both got values of one sender)"
+	d.Rule = "(senders, receivers, buffer, mode, send styles, receive styles, spawn forms/bindings, GOMAXPROCS, scope) of one channel group is new AND at least two script goroutines provably overlapped in that run (stamped runs: stamps of ≥2 goroutines alternate; unstamped: more messages than buffer slots, or a receiver's list alternates between senders, or two receivers both got values of one sender); shared-thread scenarios: (waiters, forms, way the thread object is passed, gate/work, result kind, GOMAXPROCS) is new and ≥2 waiter goroutines plus the spawner called wait() on the same thread"
 	d.Assume = []string{
 		"script goroutines share only channels and read-only values; every mutable value is private to one goroutine, so any race report concerns interpreter state",
 		"the stamped history is taken in a host builtin with one global atomic counter; the counter itself orders the goroutines, so stamped runs can hide races that the unstamped runs (60 %) expose",
@@ -711,6 +711,7 @@ func drive(d *mon.Driver, replay string) int {
 		N     int    `json:"n"`
 	}
 	var slowest []slowRun
+	waitSampled := false
 	var totalMs = map[string]int64{}
 	judgeRun := func(c mon.Case, p *planned, o *Obs, rerun bool) {
 		d.Eval(1)
@@ -760,6 +761,14 @@ func drive(d *mon.Driver, replay string) int {
 			// ≥2 waiter goroutines plus the spawner call wait() on one thread whose call ends while they do
 			d.Distinct(p.s.W.distinctKey(p.s.Procs))
 			d.Event("shared_thread_scenarios", 1)
+		}
+		if !waitSampled && p.s.W != nil && len(v.Findings) == 0 && p.s.W.Waiters >= 2 {
+			waitSampled = true
+			rounds, _ := asList(o.Value)
+			if len(rounds) > 2 {
+				rounds = rounds[:2]
+			}
+			d.Sample(map[string]any{"case": c.ID, "race_build": p.race, "classes": p.s.hangClass(), "program": p.s.Render(), "first_rounds": rounds})
 		}
 		if samples < 4 && len(v.Findings) == 0 && len(p.s.Gors) >= 3 && p.s.Chans[0].N <= 10 {
 			samples++
